@@ -764,6 +764,13 @@ impl Runner {
     /// Waits for a [`Token`] to become available and returns it.
     pub async fn get_token(&self) -> Token {
         let sg = self.sema.acquire_arc().await;
+        // Releasing a permit only notifies a waiter if no other waiter is
+        // notified already, and our own notification is not passed on when
+        // `acquire_arc` returns. If several permits were released while we
+        // were the notified waiter, the others would stay unused until the
+        // next release. Taking and releasing a spare permit, if there is one,
+        // notifies the next waiter now.
+        drop(self.sema.try_acquire_arc());
         let tt = self.wg.add_task();
         Token { config: self.config.clone(), stop_fut: self.stop.listen(), _sg: sg, _tt: tt }
     }
